@@ -15,7 +15,8 @@ The expander is a pure function of
 Not modelled: the warnings printed to `utils.stdwarn` (among them the only use of
 `Eups.version_match` and of `versionRegexp`).  Everything else of the function is mirrored
 as it stands in the tree with our `fix:` commits (the `--external` line goes to the final block itself;
-the closure collection skips the recursion for a `-j` line), remaining defects included.  -/
+the closure collection skips the recursion for a `-j` line), remaining defects included; since round 3 the repair of D73: the pattern for setup lines matches unsetup lines as such —
+they stay in their setup block, are not rewritten and name no product).  -/
 namespace EupsModel.Expand
 open EupsModel
 
@@ -135,20 +136,29 @@ structure RexMatch where
   optional : Bool      -- group(1) == "setupOptional"
   args : Str           -- group(2)
   len : Nat            -- len(group(0))
+  unsetup : Bool := false   -- group(1) starts with "unsetup"
 deriving Repr, DecidableEq
 
 /-- `(setupRequired|setupOptional)\("?([^"]*)"?\)` anchored at the head of `s` -/
-def matchRexAt (s : Str) : Option RexMatch :=
+def matchSetupAt (s : Str) : Option RexMatch :=
   let go (optional : Bool) (rest : Str) : Option RexMatch :=
     let viaQuote : Option RexMatch := match rest with
-      | 34 :: r => (bodyMatch r).map fun (g, n) => ⟨optional, g, 15 + n⟩
+      | 34 :: r => (bodyMatch r).map fun (g, n) => ⟨optional, g, 15 + n, false⟩
       | _ => none
     match viaQuote with
     | some m => some m
-    | none => (bodyMatch rest).map fun (g, n) => ⟨optional, g, 14 + n⟩
+    | none => (bodyMatch rest).map fun (g, n) => ⟨optional, g, 14 + n, false⟩
   if sReqP.isPrefixOf s then go false (s.drop 14)
   else if sOptP.isPrefixOf s then go true (s.drop 14)
   else none
+
+/-- `((?:un)?setup(?:Required|Optional))\("?([^"]*)"?\)` anchored at the head of `s` (the pattern of the tree with the
+repair of D73: an unsetup line is matched as such, `group(1)` = `unsetupRequired` / `unsetupOptional`, which is never equal
+to `"setupOptional"`) -/
+def matchRexAt (s : Str) : Option RexMatch :=
+  match s with
+  | 117 :: 110 :: rest => (matchSetupAt rest).map fun m => { m with optional := false, len := m.len + 2, unsetup := true }
+  | _ => matchSetupAt s
 
 /-- `re.search(rex, s)`: the leftmost match -/
 def searchRex : Str → Option RexMatch
@@ -188,6 +198,15 @@ def endsWithOpenBrace (s : Str) : Bool :=
 def isCloseBrace (s : Str) : Bool := strip s == sClose
 
 /-! ## what the expander asks its environment -/
+
+/-- The version `Eups.findSetupVersion` (hence `getSetupVersion`, `findSetupProduct`) reports for a record
+`SETUP_<P> = "<p> <recorded> -f <flavor> -Z <stack>"`: the recorded version name — unless that name is a recognised tag name
+and *no version of that name is declared* for the product in the record's stack, in which case the name is taken for the tag
+and resolved (`tagged`; kept when the tag is not assigned).  `LOCAL:` versions are reported as they are. -/
+def setupVersion (recognised : List Str) (declared : Str → Bool) (tagged : Str → Option Str) (recorded : Str) : Str :=
+  if startsWith recorded sLocal then recorded
+  else if recognised.contains recorded && !declared recorded then (tagged recorded).getD recorded
+  else recorded
 
 structure Dep where
   name : Str
@@ -357,7 +376,7 @@ def subGo (A : Answers) (o : Opts) : Nat → Str → Except Err Str
   | 0, c :: cs =>
     match matchRexAt (c :: cs) with
     | some m => do
-      let r ← subSetup A o m.optional m.args ((c :: cs).take m.len)
+      let r ← if m.unsetup then pure ((c :: cs).take m.len) else subSetup A o m.optional m.args ((c :: cs).take m.len)
       let rest ← subGo A o (m.len - 1) cs
       pure (r ++ rest)
     | none => do
@@ -419,7 +438,7 @@ def classify (A : Answers) (o : Opts) (raw : Str) : Except Err Classified := do
   let line ← subAll A o (stripComment raw)
   match searchRex line with
   | some m =>
-    if !m.args.isEmpty then
+    if !m.args.isEmpty && !m.unsetup then
       let name := firstField m.args
       if name == sEups then return .eups line
       else return .setup line (some ⟨name, m.optional, contains sExternal line, line, (splitWs m.args).contains sDashJ⟩)
